@@ -46,6 +46,7 @@ class Contract:
     trusted: bool = False                      # contract assumed, body not verified (listed in evidence)
     note: str = ''
     lemma: bool = False                        # pure spec lemma: no code, goal must be valid
+    optional: bool = False                     # the function may be absent (e.g. a method a dataclass generates unless written by hand)
     bounded: bool = False                      # decided only by the bounded run-time contract check (never counted as proved)
     raises_assumed: bool = False               # the exceptional postcondition is assumed for callers, not checked on the body
     slices: int = 1                            # solve the obligations of this function in this many parallel slices
@@ -148,7 +149,7 @@ class Sidecar:
                 con.invariants = {self._lit(kk): vv for kk, vv in zip(v.keys, v.values)}
             elif k == 'variants':
                 con.variants = {self._lit(kk): vv for kk, vv in zip(v.keys, v.values)}
-            elif k in ('total', 'result_kind', 'result_fresh', 'result_opaque', 'preamble', 'slices', 'raises_assumed', 'bounded', 'mutable', 'frame', 'props', 'total_attr_roots', 'trusted', 'note'):
+            elif k in ('total', 'result_kind', 'result_fresh', 'result_opaque', 'preamble', 'slices', 'raises_assumed', 'bounded', 'optional', 'mutable', 'frame', 'props', 'total_attr_roots', 'trusted', 'note'):
                 setattr(con, k, self._lit(v))
             elif k == 'goal' and is_lemma:
                 con.ensures = self._clauses(v, 'lemma')
@@ -477,7 +478,17 @@ class Engine(Core, Expr, Calls, Builtins, Stmts):
             if r2 in (z3.sat, z3.unsat):
                 s, r = s2, r2
             else:
-                s = s2
+                # still open: one long attempt on the lean set (only obligations that fail to discharge pay for it, so a
+                # loaded machine does not turn a counter-model into "undecided")
+                s3 = mk(True, timeout_ms * 6)
+                r3 = s3.check()
+                if r3 == z3.sat:
+                    lean_model = self.model_summary(s3.model(), ob)
+                    s, r = s3, r3
+                elif r3 == z3.unsat:
+                    s, r = s3, r3
+                else:
+                    s = s2
         ob.backend = 'z3-' + z3.get_version_string()
         if r == z3.unsat:
             ob.verdict = 'discharged'
